@@ -7,6 +7,7 @@ import (
 	"os/exec"
 	"path/filepath"
 	"sort"
+	"strconv"
 	"strings"
 
 	"verifsim/internal/rtoverlay"
@@ -43,7 +44,7 @@ func scratchDir() string {
 	if home == "" {
 		home = "/root"
 	}
-	return filepath.Join(home, ".cache", "verif-scratch", fmt.Sprint(os.Getpid()))
+	return filepath.Join(home, ".cache", "verif-scratch", fmt.Sprintf("%010d", os.Getpid())) // fixed width: path lengths reach the child (argv, env) and must not vary
 }
 
 // mergeGoSum makes sure the harness module's go.sum covers the repository's
@@ -114,7 +115,9 @@ func calibrateThreads(bin string) int {
 // toolchain, yield instrumentation from /repo's CURRENT working tree) and
 // builds the simulation binary. Any failure here is infrastructure (exit 2).
 func build(race bool, yields bool) (*buildOut, error) {
+	sweepScratch()
 	sc := scratchDir()
+	liveScratch = sc
 	if err := os.MkdirAll(sc, 0o755); err != nil {
 		return nil, err
 	}
@@ -138,6 +141,15 @@ func build(race bool, yields bool) (*buildOut, error) {
 				return nil, err
 			}
 			nsites += len(sites)
+			if f := os.Getenv("VERIF_SITES_FILE"); f != "" {
+				// diagnostics: site number -> source position
+				if fh, err := os.OpenFile(f, os.O_APPEND|os.O_CREATE|os.O_WRONLY, 0o644); err == nil {
+					for i, st := range sites {
+						fmt.Fprintf(fh, "%d %s\n", nsites-len(sites)+i, st)
+					}
+					fh.Close()
+				}
+			}
 			for k, v := range yo {
 				ov[k] = v
 			}
@@ -164,6 +176,38 @@ func build(race bool, yields bool) (*buildOut, error) {
 	bo := &buildOut{bin: bin, scratch: sc, sites: nsites}
 	bo.threads = calibrateThreads(bin)
 	return bo, nil
+}
+
+// liveScratch is this process's scratch directory (overlays, the simulation
+// binary, plan/result files: about 20 MB). exit removes it on every way out;
+// deferred calls do not run on os.Exit.
+var liveScratch string
+
+func quit(code int) {
+	if liveScratch != "" && os.Getenv("VERIF_KEEP_SCRATCH") == "" {
+		os.RemoveAll(liveScratch)
+	}
+	os.Exit(code)
+}
+
+// sweepScratch removes scratch directories left by processes that no longer
+// exist (killed by a time-out, or from before exit removed them).
+func sweepScratch() {
+	root := filepath.Dir(scratchDir())
+	ents, err := os.ReadDir(root)
+	if err != nil {
+		return
+	}
+	for _, e := range ents {
+		pid, err := strconv.Atoi(e.Name())
+		if err != nil || pid == os.Getpid() {
+			continue
+		}
+		if _, err := os.Stat(fmt.Sprintf("/proc/%d", pid)); err == nil {
+			continue // owner may still be running
+		}
+		os.RemoveAll(filepath.Join(root, e.Name()))
+	}
 }
 
 func cleanup(b *buildOut) {
